@@ -71,7 +71,11 @@ func (i *Ignore) IsIncluded(path string, index *Index) bool {
 			target = fmt.Sprintf("%s/", path)
 		}
 	}
-	for _, exFile := range i.paths {
+	for n, exFile := range i.paths {
+		if n == 0 {
+			// the built-in entry for goit's own directory only matches at the start of the path
+			exFile = "^" + exFile
+		}
 		exRegexp := regexp.MustCompile(exFile)
 		if exRegexp.MatchString(target) {
 			return true
